@@ -52,6 +52,12 @@ def promote(op: str, a: str, b: str) -> str:
         if op in ('mul', 'div') and (a in NUMERIC or b in NUMERIC) and not (op == 'div' and b == 'vector3'):
             return 'vector3'
         raise _DTypeError(op, a, b)
+    if a == 'datetime64' or b == 'datetime64':
+        if a == b and op == 'sub':
+            return 'int64'
+        if op in ('add', 'sub') and (a in INTS or b in INTS):
+            return 'datetime64'
+        raise _DTypeError(op, a, b)
     if a == 'bool' or b == 'bool':
         if op in ('and', 'or', 'xor') and a == b:
             return 'bool'
@@ -458,6 +464,8 @@ class Model:
             t = Rat.fn('index', v.term, Rat.sym('key:' + keyname))
         r = self.new(interp, t, v.unit, v.dtype, v.taint, v.why or 'indexing')
         r.view_of = v
+        if isinstance(key, SVar) and isinstance(key.term, Rat):
+            r.members['index_key'] = key.term
         return r
 
     def bound_index(self, interp, obj: BoundModel, key, node):
@@ -466,6 +474,8 @@ class Model:
             members = v.members.setdefault(obj.name, {})
             if not isinstance(key, Opaque | SVar) and key in members:
                 return members[key]
+            if '*' in members:
+                return members['*']
             r = self.new(interp, None, None, None, v.taint, f'{obj.name}[{key!r}]')
             r.view_of = v
             return r
